@@ -11,4 +11,13 @@ for m in pkgutil.iter_modules([os.path.dirname(__file__)]):
     if re_ok := (m.name[0] == "C" and m.name[1:].isdigit()):
         PROPS[m.name] = importlib.import_module("checks." + m.name).CONFIG
 
+LEVELS = ("exploration", "fault_enumeration", "model_checking", "proof", "translation_validation", "other")
+for _p, _c in PROPS.items():
+    # the schemas only know these categories; a partial proof is still category "proof", with the
+    # partiality spelled out in level_text / level_note / coverage.explanation
+    if _c.get("level", "proof") not in LEVELS:
+        _c["partial"] = True
+        _c["level_text"] = "PARTIAL. " + _c.get("level_text", "")
+        _c["level"] = "proof"
+
 from checks._na import NOT_APPLICABLE, HOOK_COMMITS
